@@ -294,3 +294,27 @@ board_proof! {
         kani::cover!(safe != 0 && p.halfmove >= 100);
     }
 }
+
+// O-C12.status.table: status() is the Won/Drawn/Ongoing table applied to the answer of ONE call of
+// generate_moves (replaced by a recording contract stub; its contract is O-C01/O-C16 + L-exists)
+pub(crate) static mut GEN_ORACLE: bool = false;
+pub(crate) static mut GEN_CALLS: u32 = 0;
+pub(crate) fn rec_generate_moves<F: FnMut(PieceMoves) -> bool>(_b: &Board, _listener: F) -> bool {
+    unsafe {
+        GEN_CALLS += 1;
+        GEN_ORACLE
+    }
+}
+#[kani::proof]
+#[kani::stub(crate::board::Board::generate_moves, rec_generate_moves)]
+fn c12_status_table() {
+    let p = any_pos_raw();
+    let mut b = mk_board(&p);
+    b.checkers = BitBoard(kani::any());
+    unsafe { GEN_ORACLE = kani::any(); GEN_CALLS = 0; }
+    let r = status_code(b.status());
+    unsafe {
+        assert!(GEN_CALLS == 1);
+        assert!(r == sp::spec_status(GEN_ORACLE, b.checkers.0 != 0, p.halfmove));
+    }
+}
